@@ -5,7 +5,7 @@ Import ListNotations.
 
 (* the program the model was proved against (a different program breaks this lemma first) *)
 Lemma prog_is : prog = [ZRaiseIfNone; ZReturnIfSame; ZIfNotStarted [ZSetMax; ZReturn]; ZWaitJobs; ZAcquire; ZSnapshotAlive; ZSetMax;
-                        ZPostSentinels; ZRelease; ZWaitShrunk; ZAcquire; ZAdjust; ZRelease; ZWaitAllAlive].
+                        ZPostSentinels; ZRelease; ZWaitShrunk; ZAcquire; ZAdjustIfLive; ZRelease; ZWaitAllAlive].
 Proof. reflexivity. Qed.
 Lemma facts_hold : wait_job_completion_waits_until_nothing_is_pending = true /\ submit_is_excluded_during_resize = true
                    /\ idle_exit_gives_up_when_the_management_lock_is_taken = true.
@@ -80,8 +80,12 @@ Proof.
       fin; try clean_hyps F; inst; fin.
   - (* ZRelease *) simpl. exists 1. split; [lia|]. split; [reflexivity|]. unfold Ph, in_lock, K, newv in *; simpl. inst.
     fin; try clean_hyps F; inst; fin.
-  - (* ZAdjust *) simpl. exists 2. split; [lia|]. split; [reflexivity|]. unfold Ph, in_lock, K, newv, len in *; simpl. inst.
-    fin; try clean_hyps F; inst; fin.
+  - (* ZAdjustIfLive *)
+    destruct (broken s) eqn:Bk.
+    + unfold set_pc; simpl. exists 2. split; [lia|]. split; [reflexivity|]. unfold Ph, in_lock, K, newv, len in *; simpl. rewrite ?Bk. inst.
+      fin; try clean_hyps F; inst; fin.
+    + simpl. exists 2. split; [lia|]. split; [reflexivity|]. unfold Ph, in_lock, K, newv, len in *; simpl. rewrite ?Bk. inst.
+      fin; try clean_hyps F; inst; fin.
   - (* ZAcquire *) rewrite Ml. simpl. exists 3. split; [lia|]. split; [reflexivity|]. unfold Ph, in_lock, K, newv in *; simpl. inst.
     fin; try clean_hyps F; inst; fin.
   - (* ZWaitShrunk *)
@@ -267,6 +271,7 @@ Proof.
     destruct (ex s) as [|e'] eqn:Ex.
     + exists Detect. split; [simpl; auto|]. unfold step, mu. destruct (de s) as [|d] eqn:D; [lia|]. rewrite Br. simpl. rewrite Ex. lia.
     + exists Reap. split; [simpl; auto|]. unfold step, mu. rewrite Ex, Ml. simpl. lia.
+  - (* ZAdjustIfLive *) destruct (broken s); discriminate.
   - (* ZWaitShrunk *)
     destruct (broken s) eqn:Br; [rewrite andb_false_r in B; discriminate|]. simpl in B. rewrite andb_true_r in B.
     destruct (Nat.ltb (newv s) (len s)) eqn:C; [|discriminate]. clear B. apply Nat.ltb_lt in C. rename C into B. unfold len in B.
